@@ -309,10 +309,23 @@ impl<'a> InputGen<'a> {
                     } else {
                         near_miss(rng, &b)
                     }
+                } else if !names.is_empty() && rng.chance(1, 8) {
+                    // a valid name behind another path segment (or in front of one) is not that name
+                    let n = rng.pick(&names).clone();
+                    // (not for names that have to be written raw: what the "unknown name" is then — with or
+                    // without the `r#` — is not pinned down, and similarity scores depend on it)
+                    if !addressable(&n) || written(&n) != n {
+                        return None;
+                    }
+                    if rng.coin() {
+                        format!("q::{n}")
+                    } else {
+                        format!("{n}::q")
+                    }
                 } else {
                     near_miss(rng, &base)
                 };
-                if !addressable(&name) {
+                if !name.contains("::") && !addressable(&name) {
                     return None;
                 }
                 let it = match rng.below(3) {
